@@ -87,6 +87,7 @@ func NewWorld(r *Run, cfg NetConfig) *World {
 	}
 	sync2.YieldHook = w.yield
 	kv.SimFS = nil
+	kv.SimFSOf = nil
 	// tuning knob, per run: the engine's memtable size (production 32 MiB; first-touch of dozens
 	// of 32 MiB arenas dominated the cost of runs with many shard replicas, and small memtables
 	// make the engine flush on its own within short runs)
@@ -100,6 +101,7 @@ func (w *World) Close() {
 	sync2.YieldHook = nil
 	rpc.SimNewPool = nil
 	kv.SimFS = nil
+	kv.SimFSOf = nil
 	kv.SimMemTableSize = 0
 	w.yieldOff = true
 	os.RemoveAll(w.Root)
